@@ -10,6 +10,10 @@ import Mqtt.V3.Encode
 import Mqtt.V3.Decode
 import Mqtt.V3.Poll
 import Mqtt.V3.Text
+import Mqtt.V5.Encode
+import Mqtt.V5.Decode
+import Mqtt.V5.Poll
+import Mqtt.V5.Text
 
 namespace Mqtt.Driver
 open Mqtt
@@ -160,12 +164,102 @@ def opProto (bs : Bytes) : String :=
   | .err e => s!"err {e.show}"
   | .panic s => s!"panic[{s}]"
 
+/-! ### v5 packets -/
+
+def parseTerm5 (s : String) : Option V5.Term :=
+  (parseTerm s).map fun t => match t with
+    | .eof => V5.Term.eof
+    | .err k => V5.Term.err k
+
+def v5ShowOut : V5.Out ErrorV5 V5.Packet → String
+  | .ok p n => s!"ok {n} {p.show}"
+  | .err e => s!"err {e.show}"
+  | .panic s => s!"panic[{s}]"
+
+def v5Dec (debug : Bool) (bs : Bytes) : String :=
+  match V5.decodeBlocking debug bs with
+  | .ok (some p) n => s!"ok {n} {p.show}"
+  | .ok none _ => "none"
+  | .err e => s!"err {e.show}"
+  | .panic s => s!"panic[{s}]"
+
+def v5Hdr (bs : Bytes) : String :=
+  match V5.headerDecodeBlocking bs with
+  | .ok h n => s!"ok {h.typ.toNat} {b01 h.dup} {h.qos.toNat} {b01 h.retain} {h.remainingLen} {n}"
+  | .err e => s!"err {e.show}"
+  | .panic s => s!"panic[{s}]"
+
+def showPart (b : V5.PanicOr Bytes) (l : V5.PanicOr Nat) : String :=
+  match b, l with
+  | .ok b, .ok l => s!"{hexOrDash b}/{l}"
+  | _, _ => "panic[part]"
+
+def v5PropsPart (allowed : List UInt8) (ps : V5.Props) : String :=
+  showPart (ps.encode allowed) (ps.encodeLen allowed)
+
+def v5Parts : V5.Packet → String
+  | .connect c =>
+    let w := match c.lastWill with
+      | some w => s!" will={showPart w.encode w.encodeLen} wprops={v5PropsPart V5.willProps w.properties}"
+      | none => ""
+    s!"body={showPart c.encode c.encodeLen} props={v5PropsPart V5.connectProps c.properties}{w}"
+  | .connack c => s!"body={showPart c.encode c.encodeLen} props={v5PropsPart V5.connackProps c.properties}"
+  | .publish p => s!"body={showPart p.encode p.encodeLen} props={v5PropsPart V5.publishProps p.properties}"
+  | .puback a => s!"body={showPart (a.encode .pubackReason) (a.encodeLen .pubackReason)} props={v5PropsPart V5.ackProps a.properties}"
+  | .pubrec a => s!"body={showPart (a.encode .pubrecReason) (a.encodeLen .pubrecReason)} props={v5PropsPart V5.ackProps a.properties}"
+  | .pubrel a => s!"body={showPart (a.encode .pubrelReason) (a.encodeLen .pubrelReason)} props={v5PropsPart V5.ackProps a.properties}"
+  | .pubcomp a => s!"body={showPart (a.encode .pubcompReason) (a.encodeLen .pubcompReason)} props={v5PropsPart V5.ackProps a.properties}"
+  | .subscribe x => s!"body={showPart x.encode x.encodeLen} props={v5PropsPart V5.subscribeProps x.properties}"
+  | .suback x => s!"body={showPart x.encode x.encodeLen} props={v5PropsPart V5.ackProps x.properties}"
+  | .unsubscribe x => s!"body={showPart x.encode x.encodeLen} props={v5PropsPart V5.unsubscribeProps x.properties}"
+  | .unsuback x => s!"body={showPart x.encode x.encodeLen} props={v5PropsPart V5.ackProps x.properties}"
+  | .disconnect d => s!"body={showPart d.encode d.encodeLen} props={v5PropsPart V5.disconnectProps d.properties}"
+  | .auth a => s!"body={showPart a.encode a.encodeLen} props={v5PropsPart V5.authProps a.properties}"
+  | .pingreq | .pingresp => "body=~"
+
+def showEncLen5 : EncRes Nat → String
+  | .ok n => toString n
+  | .err e => e.show
+  | .panic s => s!"panic[{s}]"
+
+def v5Enc (debug : Bool) (toks : List String) : String :=
+  match V5.parsePacket toks with
+  | .syntax => "bad-op"
+  | .unconstructible w => s!"unconstructible {w}"
+  | .ok p =>
+    let len := showEncLen5 p.encodeLen
+    match p.encode debug with
+    | .ok vb => s!"ok {hexOfBytes vb.asRef} len={len} {v5Parts p}"
+    | .err e => s!"err {e.show} len={len}"
+    | .panic s => s!"panic[{s}]"
+
+def v5Poll (debug : Bool) (bs : Bytes) (sched : List Poll.Sched) (term : V3.Term) : String :=
+  let t : Poll.Term := match term with
+    | .eof => .eof
+    | .err k => .err k
+  let r := Poll.run (V5.pollFamily debug) debug bs sched t
+  let res := match r.result with
+    | .ok total body p => s!"ok total={total} body={hexOrDash body} {p.show}"
+    | .err e => s!"err {e.show}"
+    | .panic s => s!"panic[{s}]"
+  s!"{res} consumed={r.consumed} pend={r.log.pendings} reqs={showReqs r.log.requests}"
+
+def v5Cwp (proto : String) (cb : UInt8) (rl : Nat) (bs : Bytes) : String :=
+  match V3.parseProtocol proto, V5.Header.newWith cb rl with
+  | .ok p, .ok h =>
+    match V5.Connect.decodeWithProtocol h p bs with
+    | .ok c rest => s!"ok {bs.length - rest.length} {(V5.Packet.connect c).show}"
+    | .more => "more"
+    | .err e => s!"err {e.show}"
+    | .panic s => s!"panic[{s}]"
+  | _, _ => "bad-op"
+
 def withHex (h : String) (f : Bytes → String) : String :=
   match bytesOfHex h with
   | some bs => f bs
   | none => "bad-op"
 
-def step (debug : Bool) (line : String) : String :=
+def stepRaw (debug : Bool) (line : String) : String :=
   match line.trimAscii.toString.splitOn " " with
   | ["vi", n] => match n.toNat? with
     | some k => opVi k
@@ -188,6 +282,23 @@ def step (debug : Bool) (line : String) : String :=
     | some sc, some t => withHex h fun bs => v3Poll debug bs sc t
     | _, _ => "bad-op"
   | ["cwp", "v3", p, h] => withHex h (v3Cwp p)
+  | ["dec", "v5", h] => withHex h (v5Dec debug)
+  | ["deca", "v5", h, t] => match parseTerm5 t with
+    | some t => withHex h fun bs => v5ShowOut (V5.runAsync (V5.decodeAsync debug) bs t)
+    | none => "bad-op"
+  | ["hdr", "v5", h] => withHex h v5Hdr
+  | "enc" :: "v5" :: toks => v5Enc debug toks
+  | ["poll", "v5", h, sc, t] => match parseSched sc, parseTerm t with
+    | some sc, some t => withHex h fun bs => v5Poll debug bs sc t
+    | _, _ => "bad-op"
+  | ["cwp", "v5", p, rl, h] => match rl.toNat? with
+    | some rl => withHex h (v5Cwp p 0x10 rl)
+    | none => "bad-op"
   | _ => "bad-op"
+
+/-- The Rust side can only report *that* an op panicked (catch_unwind), not where. -/
+def step (debug : Bool) (line : String) : String :=
+  let r := stepRaw debug line
+  if (r.splitOn "panic[").length > 1 then "panic" else r
 
 end Mqtt.Driver
